@@ -826,23 +826,22 @@ Proof.
     apply str_eqb_eq in E1, E2. subst. rewrite str_eqb_refl in E. discriminate.
 Qed.
 
-Section DeclsGeneric.
-Variable tbl : list evalue -> option (list (str * evalue)).
-Hypothesis tbl_nodup : forall vs t, tbl vs = Some t -> NoDup (map fst t).
+Lemma values_from_list_nodup vs t : values_from_list vs = Some t -> NoDup (map fst t).
+Proof. intro H. exact (values_from_list_keys_nodup vs t H). Qed.
 
 (* a surviving declaration is represented by the entry under its class name *)
 Definition entry_matches (d : cdecl) (e : option centry) : Prop :=
-  match decl_table_g tbl d with
+  match decl_table d with
   | Some t1 => exists t', e = Some (CEnum t') /\ tbl_equiv t1 t'
   | None => e = Some CModel
   end.
 
 Definition decls_inv (prefix : str) (tab : list (str * centry)) (errs seen : list cdecl) : Prop :=
   NoDup (map fst tab) /\
-  (forall c t, clookup c tab = Some (CEnum t) -> exists d, In d seen /\ decl_class prefix d = c /\ decl_table_g tbl d = Some t) /\
+  (forall c t, clookup c tab = Some (CEnum t) -> exists d, In d seen /\ decl_class prefix d = c /\ decl_table d = Some t) /\
   (forall d, In d seen -> ~ In d errs -> entry_matches d (clookup (decl_class prefix d) tab)) /\
   (forall d, In d errs -> In d seen) /\
-  (forall p n vs, In (DEnum p n vs) seen -> tbl vs <> None).
+  (forall p n vs, In (DEnum p n vs) seen -> values_from_list vs <> None).
 
 Lemma tbl_equiv_refl a : tbl_equiv a a.
 Proof. intro k. reflexivity. Qed.
@@ -853,23 +852,23 @@ Proof. intros H k. now rewrite H. Qed.
 
 Lemma add_decls_inv prefix : forall ds tab errs seen tab' errs',
   decls_inv prefix tab errs seen ->
-  add_decls_g tbl prefix tab errs ds = Some (tab', errs') ->
+  add_decls prefix tab errs ds = Some (tab', errs') ->
   decls_inv prefix tab' errs' (seen ++ ds).
 Proof.
-  induction ds as [|d ds IH]; intros tab errs seen tab' errs' Inv H; cbn [add_decls_g] in H.
+  induction ds as [|d ds IH]; intros tab errs seen tab' errs' Inv H; cbn [add_decls] in H.
   - injection H as <- <-. now rewrite app_nil_r.
-  - destruct (add_decl_g tbl prefix tab d) as [[tab1|]|] eqn:Ed; [| |discriminate];
+  - destruct (add_decl prefix tab d) as [[tab1|]|] eqn:Ed; [| |discriminate];
       (replace (seen ++ d :: ds) with ((seen ++ [d]) ++ ds) by (now rewrite <- app_assoc));
       apply (IH _ _ _ _ _) with (2 := H); clear IH H;
       destruct Inv as [I1 [I2 [I3 [I4 I5]]]].
     + (* accepted *)
-      unfold add_decl_g in Ed. set (c := decl_class prefix d) in *.
+      unfold add_decl in Ed. set (c := decl_class prefix d) in *.
       assert (Hold: forall x, In x seen -> ~ In x errs -> clookup (decl_class prefix x) tab <> None).
       { intros x Hx Hnx Hn. specialize (I3 x Hx Hnx). rewrite Hn in I3. unfold entry_matches in I3.
-        destruct (decl_table_g tbl x) eqn:Et; [destruct I3 as [? [? _]]; discriminate|discriminate]. }
-      assert (I5': forall p0 n0 vs0, In (DEnum p0 n0 vs0) (seen ++ [d]) -> tbl vs0 <> None).
+        destruct (decl_table x) eqn:Et; [destruct I3 as [? [? _]]; discriminate|discriminate]. }
+      assert (I5': forall p0 n0 vs0, In (DEnum p0 n0 vs0) (seen ++ [d]) -> values_from_list vs0 <> None).
       { intros p0 n0 vs0 Hin. apply in_app_or in Hin as [Hin|[Hd|[]]]; [now apply (I5 p0 n0)|]. subst d.
-        cbn beta iota in Ed. destruct (tbl vs0); [discriminate|discriminate]. }
+        cbn beta iota in Ed. destruct (values_from_list vs0); [discriminate|discriminate]. }
       destruct d as [n|p n vs].
       * (* model *)
         destruct (clookup c tab) eqn:Ec; [discriminate|]. injection Ed as <-.
@@ -884,13 +883,13 @@ Proof.
            ++ rewrite clookup_snoc. fold c. rewrite Ec, str_eqb_refl. reflexivity.
         -- intros x Hx. apply in_or_app. left. now apply I4.
       * (* enum *)
-        destruct (tbl vs) as [t|] eqn:Ev; [|discriminate].
+        destruct (values_from_list vs) as [t|] eqn:Ev; [|discriminate].
         destruct (clookup c tab) as [[|t']|] eqn:Ec.
         -- discriminate.
         -- destruct (table_eqb t t') eqn:Eq; [|discriminate]. injection Ed as <-.
            assert (Heq: tbl_equiv t t').
-           { apply table_eqb_equiv; [now apply (tbl_nodup vs) | | exact Eq].
-             destruct (I2 _ _ Ec) as [x [_ [_ Hx]]]. destruct x; [discriminate|]. cbn [decl_table_g] in Hx. now apply tbl_nodup in Hx. }
+           { apply table_eqb_equiv; [now apply (values_from_list_nodup vs) | | exact Eq].
+             destruct (I2 _ _ Ec) as [x [_ [_ Hx]]]. destruct x; [discriminate|]. cbn [decl_table] in Hx. now apply values_from_list_nodup in Hx. }
            split; [|split; [|split; [|split; [|exact I5']]]].
            ++ now rewrite creplace_keys.
            ++ intros c1 t1 Hl. rewrite clookup_creplace in Hl. destruct (clookup c1 tab) eqn:E1; [|discriminate].
@@ -901,10 +900,10 @@ Proof.
               ** specialize (I3 x Hx Hnx). destruct (clookup (decl_class prefix x) tab) eqn:E1; [|exact I3].
                  destruct (str_eqb c (decl_class prefix x)) eqn:E2; [|exact I3].
                  apply str_eqb_eq in E2. rewrite <- E2, Ec in E1. injection E1 as <-.
-                 unfold entry_matches in *. destruct (decl_table_g tbl x) as [t1|].
+                 unfold entry_matches in *. destruct (decl_table x) as [t1|].
                  --- destruct I3 as [t2 [[= <-] He]]. exists t. split; [reflexivity|]. eapply tbl_equiv_trans; [exact He|]. now apply tbl_equiv_sym.
                  --- discriminate.
-              ** fold c. rewrite Ec, str_eqb_refl. unfold entry_matches. cbn [decl_table_g]. rewrite Ev. exists t. split; [reflexivity|apply tbl_equiv_refl].
+              ** fold c. rewrite Ec, str_eqb_refl. unfold entry_matches. cbn [decl_table]. rewrite Ev. exists t. split; [reflexivity|apply tbl_equiv_refl].
            ++ intros x Hx. apply in_or_app. left. now apply I4.
         -- injection Ed as <-.
            split; [|split; [|split; [|split; [|exact I5']]]].
@@ -916,7 +915,7 @@ Proof.
            ++ intros x Hx Hnx. apply in_app_or in Hx as [Hx|[<-|[]]].
               ** rewrite clookup_snoc. specialize (I3 x Hx Hnx). destruct (clookup (decl_class prefix x) tab) eqn:E1; [exact I3|].
                  exfalso. now apply (Hold x Hx Hnx).
-              ** rewrite clookup_snoc. fold c. rewrite Ec, str_eqb_refl. unfold entry_matches. cbn [decl_table_g]. rewrite Ev.
+              ** rewrite clookup_snoc. fold c. rewrite Ec, str_eqb_refl. unfold entry_matches. cbn [decl_table]. rewrite Ev.
                  exists t. split; [reflexivity|apply tbl_equiv_refl].
            ++ intros x Hx. apply in_or_app. left. now apply I4.
     + (* reported *)
@@ -927,54 +926,13 @@ Proof.
         -- exfalso. apply Hnx. apply in_or_app. right. now left.
       * intros x Hx. apply in_app_or in Hx as [Hx|[<-|[]]]; apply in_or_app; [left; now apply I4 | right; now left].
       * intros p0 n0 vs0 Hin. apply in_app_or in Hin as [Hin|[Hd|[]]]; [now apply (I5 p0 n0)|]. subst d.
-        unfold add_decl_g in Ed. destruct (tbl vs0); [discriminate|discriminate].
+        unfold add_decl in Ed. destruct (values_from_list vs0); [discriminate|discriminate].
 Qed.
 
 (* enum_classes_distinct_or_shared: over any list of class-minting declarations (object schemas and enums, in processing order), if the
    generator does not crash: class names are pairwise distinct; the member table of every generated enum class is exactly the table of
    one declared value list of that class name; every declaration is reported or represented; two unreported enums with one class name
    have the same member names with the same values (they share the class); an enum and a model with one class name are never both kept *)
-Theorem decls_distinct_or_shared_g prefix ds tab errs :
-  model_decls_g tbl prefix ds = Some (tab, errs) ->
-  NoDup (map fst tab) /\
-  (forall c t, In (c, CEnum t) tab ->
-     exists p n vs, In (DEnum p n vs) ds /\ decl_class prefix (DEnum p n vs) = c /\ tbl vs = Some t) /\
-  (forall d, In d ds -> In d errs \/ exists e, clookup (decl_class prefix d) tab = Some e) /\
-  (forall d1 d2 t1 t2, In d1 ds -> In d2 ds -> decl_class prefix d1 = decl_class prefix d2 ->
-     decl_table_g tbl d1 = Some t1 -> decl_table_g tbl d2 = Some t2 -> ~ In d1 errs -> ~ In d2 errs -> tbl_equiv t1 t2) /\
-  (forall n d2 t2, In (DModel n) ds -> In d2 ds -> decl_class prefix (DModel n) = decl_class prefix d2 ->
-     decl_table_g tbl d2 = Some t2 -> In (DModel n) errs \/ In d2 errs) /\
-  (forall d, In d errs -> In d ds).
-Proof.
-  unfold model_decls_g. intro H.
-  assert (I0: decls_inv prefix [] [] []).
-  { split; [constructor|]. split; [intros c t Hl; discriminate|]. split; [intros d []|]. split; [intros d []|intros ? ? ? []]. }
-  pose proof (add_decls_inv _ _ _ _ _ _ _ I0 H) as [I1 [I2 [I3 [I4 I5]]]]. cbn [app] in *.
-  assert (Hdec: forall d : cdecl, In d errs \/ ~ In d errs).
-  { intro d. destruct (in_dec (fun a b : cdecl => ltac:(decide equality; try apply (list_eq_dec N.eq_dec); try apply (list_eq_dec (list_eq_dec N.eq_dec));
-      try (apply list_eq_dec; decide equality; try apply Z.eq_dec; apply (list_eq_dec N.eq_dec)))) d errs); auto. }
-  split; [exact I1|]. split; [|split; [|split; [|split]]].
-  - intros c t Hin. apply (clookup_In_nodup _ _ _ I1) in Hin. destruct (I2 _ _ Hin) as [d [Hd [Hc Ht]]].
-    destruct d as [|p n vs]; [discriminate|]. exists p, n, vs. auto.
-  - intros d Hd. destruct (Hdec d) as [He|He]; [now left|right]. specialize (I3 d Hd He). unfold entry_matches in I3.
-    destruct (decl_table_g tbl d) eqn:Et.
-    + destruct I3 as [t' [-> _]]. eauto.
-    + eauto.
-  - intros d1 d2 t1 t2 H1 H2 Ec E1 E2 N1 N2. pose proof (I3 d1 H1 N1) as M1. pose proof (I3 d2 H2 N2) as M2.
-    unfold entry_matches in M1, M2. rewrite E1 in M1. rewrite E2 in M2. rewrite Ec in M1.
-    destruct M1 as [ta [Ea Ha]], M2 as [tb [Eb Hb]]. rewrite Ea in Eb. injection Eb as <-.
-    eapply tbl_equiv_trans; [exact Ha|]. now apply tbl_equiv_sym.
-  - intros n d2 t2 H1 H2 Ec E2. destruct (Hdec (DModel n)) as [He|N1]; [now left|]. destruct (Hdec d2) as [He|N2]; [now right|].
-    exfalso. pose proof (I3 _ H1 N1) as M1. pose proof (I3 d2 H2 N2) as M2.
-    unfold entry_matches in M1, M2. cbn [decl_table_g] in M1. rewrite E2 in M2. rewrite Ec in M1. destruct M2 as [tb [Eb _]]. congruence.
-  - exact I4.
-Qed.
-
-End DeclsGeneric.
-
-Lemma values_from_list_nodup vs t : values_from_list vs = Some t -> NoDup (map fst t).
-Proof. intro H. exact (values_from_list_keys_nodup vs t H). Qed.
-
 Theorem enum_classes_distinct_or_shared prefix ds tab errs :
   model_decls prefix ds = Some (tab, errs) ->
   NoDup (map fst tab) /\
@@ -986,30 +944,30 @@ Theorem enum_classes_distinct_or_shared prefix ds tab errs :
   (forall n d2 t2, In (DModel n) ds -> In d2 ds -> decl_class prefix (DModel n) = decl_class prefix d2 ->
      decl_table d2 = Some t2 -> In (DModel n) errs \/ In d2 errs) /\
   (forall d, In d errs -> In d ds).
-Proof. exact (decls_distinct_or_shared_g values_from_list values_from_list_nodup prefix ds tab errs). Qed.
-
-(* the Literal style (literal_enums: true) *)
-Lemma lit_go_nodup : forall vs out, NoDup (keys out) -> NoDup (keys (lit_go vs out)).
-Proof. induction vs as [|v vs IH]; intros out H; cbn [lit_go]; [exact H|]. apply IH. now apply assoc_set_nodup. Qed.
-
-Lemma lit_table_nodup vs t : lit_table vs = Some t -> NoDup (map fst t).
-Proof. intros [= <-]. apply (lit_go_nodup vs []). constructor. Qed.
-
-(* literal_classes_distinct_or_shared: the same statement for LiteralEnumProperty.build; tables are keyed by the value itself, so tbl_equiv of two
-   literal tables says that the two declared value lists are equal as sets *)
-Theorem literal_classes_distinct_or_shared prefix ds tab errs :
-  model_decls_lit prefix ds = Some (tab, errs) ->
-  NoDup (map fst tab) /\
-  (forall c t, In (c, CEnum t) tab ->
-     exists p n vs, In (DEnum p n vs) ds /\ decl_class prefix (DEnum p n vs) = c /\ lit_table vs = Some t) /\
-  (forall d, In d ds -> In d errs \/ exists e, clookup (decl_class prefix d) tab = Some e) /\
-  (forall d1 d2 t1 t2, In d1 ds -> In d2 ds -> decl_class prefix d1 = decl_class prefix d2 ->
-     decl_table_g lit_table d1 = Some t1 -> decl_table_g lit_table d2 = Some t2 -> ~ In d1 errs -> ~ In d2 errs -> tbl_equiv t1 t2) /\
-  (forall n d2 t2, In (DModel n) ds -> In d2 ds -> decl_class prefix (DModel n) = decl_class prefix d2 ->
-     decl_table_g lit_table d2 = Some t2 -> In (DModel n) errs \/ In d2 errs) /\
-  (forall d, In d errs -> In d ds).
-Proof. exact (decls_distinct_or_shared_g lit_table lit_table_nodup prefix ds tab errs). Qed.
-
+Proof.
+  unfold model_decls. intro H.
+  assert (I0: decls_inv prefix [] [] []).
+  { split; [constructor|]. split; [intros c t Hl; discriminate|]. split; [intros d []|]. split; [intros d []|intros ? ? ? []]. }
+  pose proof (add_decls_inv _ _ _ _ _ _ _ I0 H) as [I1 [I2 [I3 [I4 I5]]]]. cbn [app] in *.
+  assert (Hdec: forall d : cdecl, In d errs \/ ~ In d errs).
+  { intro d. destruct (in_dec (fun a b : cdecl => ltac:(decide equality; try apply (list_eq_dec N.eq_dec); try apply (list_eq_dec (list_eq_dec N.eq_dec));
+      try (apply list_eq_dec; decide equality; try apply Z.eq_dec; apply (list_eq_dec N.eq_dec)))) d errs); auto. }
+  split; [exact I1|]. split; [|split; [|split; [|split]]].
+  - intros c t Hin. apply (clookup_In_nodup _ _ _ I1) in Hin. destruct (I2 _ _ Hin) as [d [Hd [Hc Ht]]].
+    destruct d as [|p n vs]; [discriminate|]. exists p, n, vs. auto.
+  - intros d Hd. destruct (Hdec d) as [He|He]; [now left|right]. specialize (I3 d Hd He). unfold entry_matches in I3.
+    destruct (decl_table d) eqn:Et.
+    + destruct I3 as [t' [-> _]]. eauto.
+    + eauto.
+  - intros d1 d2 t1 t2 H1 H2 Ec E1 E2 N1 N2. pose proof (I3 d1 H1 N1) as M1. pose proof (I3 d2 H2 N2) as M2.
+    unfold entry_matches in M1, M2. rewrite E1 in M1. rewrite E2 in M2. rewrite Ec in M1.
+    destruct M1 as [ta [Ea Ha]], M2 as [tb [Eb Hb]]. rewrite Ea in Eb. injection Eb as <-.
+    eapply tbl_equiv_trans; [exact Ha|]. now apply tbl_equiv_sym.
+  - intros n d2 t2 H1 H2 Ec E2. destruct (Hdec (DModel n)) as [He|N1]; [now left|]. destruct (Hdec d2) as [He|N2]; [now right|].
+    exfalso. pose proof (I3 _ H1 N1) as M1. pose proof (I3 d2 H2 N2) as M2.
+    unfold entry_matches in M1, M2. cbn [decl_table] in M1. rewrite E2 in M2. rewrite Ec in M1. destruct M2 as [tb [Eb _]]. congruence.
+  - exact I4.
+Qed.
 
 Transparent python_identifier class_name.
 (* non-vacuity: FooBar = [on, off] then foo_bar = [ON, OFF] (same member names ON / OFF, different values) -> the second is reported;
@@ -1025,7 +983,6 @@ Proof. vm_compute. reflexivity. Qed.
 Opaque python_identifier class_name.
 
 Print Assumptions enum_classes_distinct_or_shared.
-Print Assumptions literal_classes_distinct_or_shared.
 
 (* ================= (b') operation-level + path-item-level parameter lists ================= *)
 (* model_params2_distinct_quiet: whichever of the two lists are present, in whatever proportion the parameters are split between them:
@@ -1077,3 +1034,169 @@ Opaque python_identifier.
 
 Print Assumptions model_params2_distinct_quiet.
 Print Assumptions model_params2_distinct.
+
+(* ================= (d'') the class-name scope for any table builder; the Literal style ================= *)
+Section DeclsGeneric.
+Variable tbl : list evalue -> option (list (str * evalue)).
+Hypothesis tbl_nodup : forall vs t, tbl vs = Some t -> NoDup (map fst t).
+
+(* a surviving declaration is represented by the entry under its class name *)
+Definition entry_matches_g (d : cdecl) (e : option centry) : Prop :=
+  match decl_table_g tbl d with
+  | Some t1 => exists t', e = Some (CEnum t') /\ tbl_equiv t1 t'
+  | None => e = Some CModel
+  end.
+
+Definition decls_inv_g (prefix : str) (tab : list (str * centry)) (errs seen : list cdecl) : Prop :=
+  NoDup (map fst tab) /\
+  (forall c t, clookup c tab = Some (CEnum t) -> exists d, In d seen /\ decl_class prefix d = c /\ decl_table_g tbl d = Some t) /\
+  (forall d, In d seen -> ~ In d errs -> entry_matches_g d (clookup (decl_class prefix d) tab)) /\
+  (forall d, In d errs -> In d seen) /\
+  (forall p n vs, In (DEnum p n vs) seen -> tbl vs <> None).
+
+Lemma add_decls_inv_g prefix : forall ds tab errs seen tab' errs',
+  decls_inv_g prefix tab errs seen ->
+  add_decls_g tbl prefix tab errs ds = Some (tab', errs') ->
+  decls_inv_g prefix tab' errs' (seen ++ ds).
+Proof.
+  induction ds as [|d ds IH]; intros tab errs seen tab' errs' Inv H; cbn [add_decls_g] in H.
+  - injection H as <- <-. now rewrite app_nil_r.
+  - destruct (add_decl_g tbl prefix tab d) as [[tab1|]|] eqn:Ed; [| |discriminate];
+      (replace (seen ++ d :: ds) with ((seen ++ [d]) ++ ds) by (now rewrite <- app_assoc));
+      apply (IH _ _ _ _ _) with (2 := H); clear IH H;
+      destruct Inv as [I1 [I2 [I3 [I4 I5]]]].
+    + (* accepted *)
+      unfold add_decl_g in Ed. set (c := decl_class prefix d) in *.
+      assert (Hold: forall x, In x seen -> ~ In x errs -> clookup (decl_class prefix x) tab <> None).
+      { intros x Hx Hnx Hn. specialize (I3 x Hx Hnx). rewrite Hn in I3. unfold entry_matches_g in I3.
+        destruct (decl_table_g tbl x) eqn:Et; [destruct I3 as [? [? _]]; discriminate|discriminate]. }
+      assert (I5': forall p0 n0 vs0, In (DEnum p0 n0 vs0) (seen ++ [d]) -> tbl vs0 <> None).
+      { intros p0 n0 vs0 Hin. apply in_app_or in Hin as [Hin|[Hd|[]]]; [now apply (I5 p0 n0)|]. subst d.
+        cbn beta iota in Ed. destruct (tbl vs0); [discriminate|discriminate]. }
+      destruct d as [n|p n vs].
+      * (* model *)
+        destruct (clookup c tab) eqn:Ec; [discriminate|]. injection Ed as <-.
+        split; [|split; [|split; [|split; [|exact I5']]]].
+        -- rewrite map_app. cbn [map fst]. apply NoDup_snoc; [exact I1|]. now apply clookup_None.
+        -- intros c1 t Hl. rewrite clookup_snoc in Hl. destruct (clookup c1 tab) eqn:E1.
+           ++ injection Hl as ->. destruct (I2 _ _ E1) as [x [Hx Hy]]. exists x. split; [apply in_or_app; now left|exact Hy].
+           ++ destruct (str_eqb c c1); discriminate.
+        -- intros x Hx Hnx. apply in_app_or in Hx as [Hx|[<-|[]]].
+           ++ rewrite clookup_snoc. specialize (I3 x Hx Hnx). destruct (clookup (decl_class prefix x) tab) eqn:E1; [exact I3|].
+              exfalso. now apply (Hold x Hx Hnx).
+           ++ rewrite clookup_snoc. fold c. rewrite Ec, str_eqb_refl. reflexivity.
+        -- intros x Hx. apply in_or_app. left. now apply I4.
+      * (* enum *)
+        destruct (tbl vs) as [t|] eqn:Ev; [|discriminate].
+        destruct (clookup c tab) as [[|t']|] eqn:Ec.
+        -- discriminate.
+        -- destruct (table_eqb t t') eqn:Eq; [|discriminate]. injection Ed as <-.
+           assert (Heq: tbl_equiv t t').
+           { apply table_eqb_equiv; [now apply (tbl_nodup vs) | | exact Eq].
+             destruct (I2 _ _ Ec) as [x [_ [_ Hx]]]. destruct x; [discriminate|]. cbn [decl_table_g] in Hx. now apply tbl_nodup in Hx. }
+           split; [|split; [|split; [|split; [|exact I5']]]].
+           ++ now rewrite creplace_keys.
+           ++ intros c1 t1 Hl. rewrite clookup_creplace in Hl. destruct (clookup c1 tab) eqn:E1; [|discriminate].
+              destruct (str_eqb c c1) eqn:E2.
+              ** injection Hl as <-. apply str_eqb_eq in E2. exists (DEnum p n vs). split; [apply in_or_app; right; now left|]. split; [now rewrite <- E2|exact Ev].
+              ** injection Hl as ->. destruct (I2 _ _ E1) as [x [Hx Hy]]. exists x. split; [apply in_or_app; now left|exact Hy].
+           ++ intros x Hx Hnx. rewrite clookup_creplace. apply in_app_or in Hx as [Hx|[<-|[]]].
+              ** specialize (I3 x Hx Hnx). destruct (clookup (decl_class prefix x) tab) eqn:E1; [|exact I3].
+                 destruct (str_eqb c (decl_class prefix x)) eqn:E2; [|exact I3].
+                 apply str_eqb_eq in E2. rewrite <- E2, Ec in E1. injection E1 as <-.
+                 unfold entry_matches_g in *. destruct (decl_table_g tbl x) as [t1|].
+                 --- destruct I3 as [t2 [[= <-] He]]. exists t. split; [reflexivity|]. eapply tbl_equiv_trans; [exact He|]. now apply tbl_equiv_sym.
+                 --- discriminate.
+              ** fold c. rewrite Ec, str_eqb_refl. unfold entry_matches_g. cbn [decl_table_g]. rewrite Ev. exists t. split; [reflexivity|apply tbl_equiv_refl].
+           ++ intros x Hx. apply in_or_app. left. now apply I4.
+        -- injection Ed as <-.
+           split; [|split; [|split; [|split; [|exact I5']]]].
+           ++ rewrite map_app. cbn [map fst]. apply NoDup_snoc; [exact I1|]. now apply clookup_None.
+           ++ intros c1 t1 Hl. rewrite clookup_snoc in Hl. destruct (clookup c1 tab) eqn:E1.
+              ** injection Hl as ->. destruct (I2 _ _ E1) as [x [Hx Hy]]. exists x. split; [apply in_or_app; now left|exact Hy].
+              ** destruct (str_eqb c c1) eqn:E2; [|discriminate]. injection Hl as <-. apply str_eqb_eq in E2.
+                 exists (DEnum p n vs). split; [apply in_or_app; right; now left|]. split; [now rewrite <- E2|exact Ev].
+           ++ intros x Hx Hnx. apply in_app_or in Hx as [Hx|[<-|[]]].
+              ** rewrite clookup_snoc. specialize (I3 x Hx Hnx). destruct (clookup (decl_class prefix x) tab) eqn:E1; [exact I3|].
+                 exfalso. now apply (Hold x Hx Hnx).
+              ** rewrite clookup_snoc. fold c. rewrite Ec, str_eqb_refl. unfold entry_matches_g. cbn [decl_table_g]. rewrite Ev.
+                 exists t. split; [reflexivity|apply tbl_equiv_refl].
+           ++ intros x Hx. apply in_or_app. left. now apply I4.
+    + (* reported *)
+      split; [exact I1|]. split; [|split; [|split]].
+      * intros c t Hl. destruct (I2 _ _ Hl) as [x [Hx Hy]]. exists x. split; [apply in_or_app; now left|exact Hy].
+      * intros x Hx Hnx. apply in_app_or in Hx as [Hx|[<-|[]]].
+        -- apply I3; [exact Hx|]. intro Hin. apply Hnx. apply in_or_app. now left.
+        -- exfalso. apply Hnx. apply in_or_app. right. now left.
+      * intros x Hx. apply in_app_or in Hx as [Hx|[<-|[]]]; apply in_or_app; [left; now apply I4 | right; now left].
+      * intros p0 n0 vs0 Hin. apply in_app_or in Hin as [Hin|[Hd|[]]]; [now apply (I5 p0 n0)|]. subst d.
+        unfold add_decl_g in Ed. destruct (tbl vs0); [discriminate|discriminate].
+Qed.
+
+(* enum_classes_distinct_or_shared: over any list of class-minting declarations (object schemas and enums, in processing order), if the
+   generator does not crash: class names are pairwise distinct; the member table of every generated enum class is exactly the table of
+   one declared value list of that class name; every declaration is reported or represented; two unreported enums with one class name
+   have the same member names with the same values (they share the class); an enum and a model with one class name are never both kept *)
+Theorem decls_distinct_or_shared_g prefix ds tab errs :
+  model_decls_g tbl prefix ds = Some (tab, errs) ->
+  NoDup (map fst tab) /\
+  (forall c t, In (c, CEnum t) tab ->
+     exists p n vs, In (DEnum p n vs) ds /\ decl_class prefix (DEnum p n vs) = c /\ tbl vs = Some t) /\
+  (forall d, In d ds -> In d errs \/ exists e, clookup (decl_class prefix d) tab = Some e) /\
+  (forall d1 d2 t1 t2, In d1 ds -> In d2 ds -> decl_class prefix d1 = decl_class prefix d2 ->
+     decl_table_g tbl d1 = Some t1 -> decl_table_g tbl d2 = Some t2 -> ~ In d1 errs -> ~ In d2 errs -> tbl_equiv t1 t2) /\
+  (forall n d2 t2, In (DModel n) ds -> In d2 ds -> decl_class prefix (DModel n) = decl_class prefix d2 ->
+     decl_table_g tbl d2 = Some t2 -> In (DModel n) errs \/ In d2 errs) /\
+  (forall d, In d errs -> In d ds).
+Proof.
+  unfold model_decls_g. intro H.
+  assert (I0: decls_inv_g prefix [] [] []).
+  { split; [constructor|]. split; [intros c t Hl; discriminate|]. split; [intros d []|]. split; [intros d []|intros ? ? ? []]. }
+  pose proof (add_decls_inv_g _ _ _ _ _ _ _ I0 H) as [I1 [I2 [I3 [I4 I5]]]]. cbn [app] in *.
+  assert (Hdec: forall d : cdecl, In d errs \/ ~ In d errs).
+  { intro d. destruct (in_dec (fun a b : cdecl => ltac:(decide equality; try apply (list_eq_dec N.eq_dec); try apply (list_eq_dec (list_eq_dec N.eq_dec));
+      try (apply list_eq_dec; decide equality; try apply Z.eq_dec; apply (list_eq_dec N.eq_dec)))) d errs); auto. }
+  split; [exact I1|]. split; [|split; [|split; [|split]]].
+  - intros c t Hin. apply (clookup_In_nodup _ _ _ I1) in Hin. destruct (I2 _ _ Hin) as [d [Hd [Hc Ht]]].
+    destruct d as [|p n vs]; [discriminate|]. exists p, n, vs. auto.
+  - intros d Hd. destruct (Hdec d) as [He|He]; [now left|right]. specialize (I3 d Hd He). unfold entry_matches_g in I3.
+    destruct (decl_table_g tbl d) eqn:Et.
+    + destruct I3 as [t' [-> _]]. eauto.
+    + eauto.
+  - intros d1 d2 t1 t2 H1 H2 Ec E1 E2 N1 N2. pose proof (I3 d1 H1 N1) as M1. pose proof (I3 d2 H2 N2) as M2.
+    unfold entry_matches_g in M1, M2. rewrite E1 in M1. rewrite E2 in M2. rewrite Ec in M1.
+    destruct M1 as [ta [Ea Ha]], M2 as [tb [Eb Hb]]. rewrite Ea in Eb. injection Eb as <-.
+    eapply tbl_equiv_trans; [exact Ha|]. now apply tbl_equiv_sym.
+  - intros n d2 t2 H1 H2 Ec E2. destruct (Hdec (DModel n)) as [He|N1]; [now left|]. destruct (Hdec d2) as [He|N2]; [now right|].
+    exfalso. pose proof (I3 _ H1 N1) as M1. pose proof (I3 d2 H2 N2) as M2.
+    unfold entry_matches_g in M1, M2. cbn [decl_table_g] in M1. rewrite E2 in M2. rewrite Ec in M1. destruct M2 as [tb [Eb _]]. congruence.
+  - exact I4.
+Qed.
+
+End DeclsGeneric.
+
+(* the Literal style (literal_enums: true) *)
+Lemma lit_go_nodup : forall vs out, NoDup (keys out) -> NoDup (keys (lit_go vs out)).
+Proof. induction vs as [|v vs IH]; intros out H; cbn [lit_go]; [exact H|]. apply IH. now apply assoc_set_nodup. Qed.
+
+Lemma lit_table_nodup vs t : lit_table vs = Some t -> NoDup (map fst t).
+Proof. intros [= <-]. apply (lit_go_nodup vs []). constructor. Qed.
+
+(* literal_classes_distinct_or_shared: the same statement for LiteralEnumProperty.build; tables are keyed by the value itself, so tbl_equiv of two
+   literal tables says that the two declared value lists are equal as sets *)
+Theorem literal_classes_distinct_or_shared prefix ds tab errs :
+  model_decls_lit prefix ds = Some (tab, errs) ->
+  NoDup (map fst tab) /\
+  (forall c t, In (c, CEnum t) tab ->
+     exists p n vs, In (DEnum p n vs) ds /\ decl_class prefix (DEnum p n vs) = c /\ lit_table vs = Some t) /\
+  (forall d, In d ds -> In d errs \/ exists e, clookup (decl_class prefix d) tab = Some e) /\
+  (forall d1 d2 t1 t2, In d1 ds -> In d2 ds -> decl_class prefix d1 = decl_class prefix d2 ->
+     decl_table_g lit_table d1 = Some t1 -> decl_table_g lit_table d2 = Some t2 -> ~ In d1 errs -> ~ In d2 errs -> tbl_equiv t1 t2) /\
+  (forall n d2 t2, In (DModel n) ds -> In d2 ds -> decl_class prefix (DModel n) = decl_class prefix d2 ->
+     decl_table_g lit_table d2 = Some t2 -> In (DModel n) errs \/ In d2 errs) /\
+  (forall d, In d errs -> In d ds).
+Proof. exact (decls_distinct_or_shared_g lit_table lit_table_nodup prefix ds tab errs). Qed.
+
+
+
+Print Assumptions literal_classes_distinct_or_shared.
